@@ -107,7 +107,7 @@ func init() {
 		ID:     "C09",
 		Word32: true,
 		Level:  "exploration",
-		Rule: "E1 bounded-exhaustive enumeration: sources (s,from,to) = every string of length ≤3 over a small byte alphabet, every byte value as a one-byte string, also behind stems of 7/8/9 (thorough: 15/16/17) bytes in 4 variants (first byte 's' / 0x00 / 0xff, eighth byte 0x80), × every 0 ≤ from ≤ to ≤ 8·len, plus EVERY stem length 0..40 with the last 10 bit positions as ends (stemmed: from in {0,8}, to around the stem end and in the tail); per source Len(New(..)) and Cmp with the canonical encoding of the same bit string must be 0; Cmp on ALL ordered pairs of canonical encodings (one per distinct bit string); " +
+		Rule: "E1 bounded-exhaustive enumeration: sources (s,from,to) = every string of length ≤3 over a small byte alphabet, every byte value as a one-byte string, also behind stems of 7/8/9 (thorough: 15/16/17) bytes in 4 variants (first byte 's' / 0x00 / 0xff, eighth byte 0x80), × every 0 ≤ from ≤ to ≤ 8·len, plus a byte-lane sweep (8-byte words with a class byte 'a'/80/ff in lane L and the difference in lane D, every ordered pair of lanes, alone and followed by one byte), plus EVERY stem length 0..40 with the last 10 bit positions as ends (stemmed: from in {0,8}, to around the stem end and in the tail); per source Len(New(..)) and Cmp with the canonical encoding of the same bit string must be 0; Cmp on ALL ordered pairs of canonical encodings (one per distinct bit string); " +
 			"plus 96 sources of 2^8 and 2^12 (±1) bytes compared in all pairs, and 48 sources of 2^16 (±1) bytes (thorough also 2^20+1) in all ordered pairs: Len, Cmp both ways, CmpUpto, StrCmpUpto against a byte-wise reference; CmpUpto and StrCmpUpto (from a fixed alphabet of call frames, after poisoning the dead stack with 0x00 and 0xff) on plain strings × all canonical encodings. Oracle: Go string comparison of '0'/'1' renderings (lexicographic, proper prefix first). A case is one call; non-trivial when both bit strings are non-empty.",
 		Assumptions: []string{
 			"byte values outside the alphabet and longer strings are not enumerated; lengths straddle the 8-byte fast-path switch through the stems",
@@ -251,6 +251,19 @@ func c09Sources(c *mc.Ctx) []c09Src {
 			}
 		}
 	}
+	// BYTE-LANE sweep (as in C16/C17, round 11): whole 8-byte words with a class byte ('a' / 0x80 / 0xff) in
+	// lane L and the difference ('X' / 'Y') in lane D, for every ordered pair of lanes - alone and followed by
+	// one more byte, aligned end and an end 3 bits short
+	for _, k := range c09LaneKeys() {
+		for _, t := range []string{"", "z"} {
+			s := k + t
+			n := int32(8 * len(s))
+			out = append(out, c09Src{gen.Bytes(s), 0, n})
+			if t == "" {
+				out = append(out, c09Src{gen.Bytes(s), 0, n - 3})
+			}
+		}
+	}
 	for _, st := range stems {
 		for v := 0; v < c09StemVariants; v++ {
 			stem := c09StemV(st, v)
@@ -266,6 +279,31 @@ func c09Sources(c *mc.Ctx) []c09Src {
 						if to >= from {
 							out = append(out, c09Src{gen.Bytes(s), from, to})
 						}
+					}
+				}
+			}
+		}
+	}
+	return out
+}
+
+// c09LaneKeys: the distinct 8-byte strings "aaaaaaaa" with lane L set to 'a' / 0x80 / 0xff and lane D != L set
+// to 'X' / 'Y'.
+func c09LaneKeys() []string {
+	seen := map[string]bool{}
+	var out []string
+	for L := 0; L < 8; L++ {
+		for D := 0; D < 8; D++ {
+			if D == L {
+				continue
+			}
+			for _, h := range []byte{'a', 0x80, 0xff} {
+				for _, d := range []byte{'X', 'Y'} {
+					k := []byte("aaaaaaaa")
+					k[L], k[D] = h, d
+					if !seen[string(k)] {
+						seen[string(k)] = true
+						out = append(out, string(k))
 					}
 				}
 			}
@@ -290,6 +328,7 @@ func c09Plains(c *mc.Ctx) []string {
 			out = append(out, c09StemV(st, v), c09StemV(st, v)+"\x80")
 		}
 	}
+	out = append(out, c09LaneKeys()...)
 	for _, st := range stems {
 		for v := 0; v < c09StemVariants; v++ {
 			stem := c09StemV(st, v)
